@@ -2,3 +2,5 @@ import H3.Model.Varint
 import H3.Model.StreamId
 import H3.Lemmas.Varint
 import H3.Props.C16
+import H3.Model.Datagram
+import H3.Props.C18
